@@ -1,0 +1,15 @@
+//go:build verif
+// +build verif
+
+package wait
+
+// VerifHook is installed by package node (verif_on.go) so that the registration of a waiter
+// is a named point like the ones on the persist / apply / snapshot path (a hold at a raft
+// hook can be released after n registrations: n proposals are then queued for one Ready).
+var VerifHook func(name string)
+
+func verifPoint(name string) {
+	if h := VerifHook; h != nil {
+		h(name)
+	}
+}
